@@ -515,8 +515,39 @@ def _inplace_cases(tier):
     return out
 
 
+def _lawpair_cases(tier):
+    """two laws built one after the other in ONE process: every ordered pair of material frames (the letters contain frames that share
+    their first axis, frames that differ by a scaling of the axes only, ...). The second law is judged: nothing of the first may survive."""
+    out = []
+    laws = ["TransverselyIsotropic", "Orthotropic"]
+    modes = ["3D"] if tier == "quick" else list(DIMMODES)
+    for l1 in laws:
+        for l2 in laws:
+            if tier == "quick" and l1 != l2 and l2 != "Orthotropic":
+                continue
+            for mode in modes:
+                for a in AXES_3D:
+                    for b in AXES_3D:
+                        if a != b:
+                            out.append({"kind": "lawpair", "first": {"kind": "law", "law": l1, "dim": mode, "pset": "hom_a", "axes": a},
+                                        "second": {"kind": "law", "law": l2, "dim": mode, "pset": "hom_b", "axes": b}})
+    return out
+
+
+def _run_lawpair(case):
+    r1 = _run_law(case["first"])
+    r2 = _run_law(case["second"])
+    v = []
+    for x in r2.get("violations", []):
+        k = dict(x["key"], kind="lawpair", first_law=case["first"]["law"], first_axes=case["first"]["axes"])
+        v.append(viol(x["check"], f"[second law of a process; first: {case['first']['law']} with axes '{case['first']['axes']}'] " + x["detail"],
+                      **{kk: vv for kk, vv in k.items() if kk != "check"}))
+    return {"violations": v, "fingerprint": fp(r1.get("fingerprint"), r2.get("fingerprint")), "nontrivial": bool(r2.get("nontrivial", True)),
+            "transitions": int(r1.get("transitions", 1)) + int(r2.get("transitions", 1)), "skipped": r2.get("skipped")}
+
+
 def cases(tier, seed):
-    return _law_cases(tier) + _pmat_cases(tier) + _e2_cases(tier) + _inplace_cases(tier)
+    return _law_cases(tier) + _pmat_cases(tier) + _e2_cases(tier) + _inplace_cases(tier) + _lawpair_cases(tier)
 
 
 def _run_inplace(case):
